@@ -27,14 +27,16 @@ func skPos(name string, exp uint32) num.Amount {
 	return num.MakeAmount(vrt.Int64In(name, 0, skDom), exp)
 }
 
-// skQty: thorough: symbolic quantity (price x quantity is then a genuine nonlinear product);
-// quick: drawn from a covering set {1, 3, -2, 7} units of its precision, which keeps every query linear
-// while prices and amounts stay symbolic.
+// skQty: the quantity is drawn from a covering set (quick {3, -2}, thorough {3, -2, 7} on the first line; units of its precision, with
+// a half unit added at two decimals), which keeps every query linear while prices and amounts stay symbolic.
+// Fully symbolic quantities (price x quantity a product of two unknowns) were tried in the thorough tier and are not
+// claimed: the line-swap harness explored 3221 paths clean in 25 minutes without finishing, Invert left 91 of 502
+// obligations unknown.
 func skQty(name string, exp uint32) num.Amount {
-	if vrt.Thorough() {
-		return skAmt(name, exp)
-	}
 	vals := []int64{3, -2}
+	if vrt.Thorough() && name == "l0.qty" {
+		vals = []int64{3, -2, 7}
+	}
 	v := vals[vrt.Choice(name, len(vals))]
 	if exp == 2 {
 		v = v*100 + 50
@@ -71,7 +73,7 @@ var (
 )
 
 func skLine(name string, o skOpts, curExp uint32, first bool) *Line {
-	full := first || vrt.Thorough()
+	full := first // (a second line with the full variety multiplies the shape space beyond what completes: not claimed)
 	if !full {
 		// quick tier: every line after the first is a plain row in a second VAT group
 		// (10 %, price at currency precision, quantity 3) so that row interactions stay covered
@@ -84,7 +86,7 @@ func skLine(name string, o skOpts, curExp uint32, first bool) *Line {
 		pexp = curExp + 2
 	}
 	qexp := uint32(0)
-	if vrt.Thorough() || o.qexp {
+	if o.qexp {
 		qexp = uint32(vrt.Choice(name+".qexp", 2)) * 2 // 0 or 2 decimals
 	}
 	pr := skAmt(name+".price", pexp)
@@ -188,9 +190,7 @@ func skInvoice(o skOpts) *Invoice {
 	// independent choice
 	if o.rich {
 		withRounding := false
-		if vrt.Thorough() {
-			withRounding = vrt.Choice("rounding", 2) == 1
-		} else if inv.Payment != nil && len(inv.Payment.Advances) == 1 && inv.Payment.Advances[0].Percent == nil {
+		if inv.Payment != nil && len(inv.Payment.Advances) == 1 && inv.Payment.Advances[0].Percent == nil {
 			withRounding = vrt.Choice("rounding", 2) == 1
 		}
 		if withRounding {
@@ -216,6 +216,15 @@ func skCurrency() currency.Code {
 		case 2:
 			return "BHD"
 		}
+	}
+	return "EUR"
+}
+
+// skCurrency2: EUR, and in the thorough tier also a currency without decimals (for the document-level harnesses, whose
+// shape space does not leave room for three currencies within the time budget).
+func skCurrency2() currency.Code {
+	if vrt.Thorough() && vrt.Choice("cur", 2) == 1 {
+		return "JPY"
 	}
 	return "EUR"
 }
